@@ -559,6 +559,16 @@ class Fn:
                 if '{closure' in e.get('adt', ''):
                     nm = str(e['i'])  # closure captures are addressed by position (matches the closure aggregate's operands)
                 red = self._reduce_some_payload(cur, depth) if (e['i'] == 0 and cur[0] == 'as' and cur[2] == 'Some') else None
+                if red is None and e['i'] == 0 and cur[0] == 'as' and cur[2] == 'Continue':
+                    src_ = cur[1]
+                    while src_[0] in ('ref', 'deref'):
+                        src_ = src_[1]
+                    if src_[0] == 'call' and src_[1].endswith('std::ops::Try>::branch') and src_[2]:
+                        # `x?` yields the payload of x: (Try::branch(x) as Continue).0 == (x as Some|Ok).0
+                        v_ = 'Some' if 'option::Option' in src_[1] else ('Ok' if 'result::Result' in src_[1] else None)
+                        if v_:
+                            inner = ('as', src_[2][0], v_)
+                            red = (self._reduce_some_payload(inner, depth) if v_ == 'Some' else None) or ('field', inner, '0', 'std::option::Option' if v_ == 'Some' else 'std::result::Result')
                 # field of a known aggregate -> the operand
                 if red is not None:
                     cur = red
@@ -592,7 +602,11 @@ class Fn:
             return src[2][0]
         if src[0] == 'phi':
             # a merge of None and Some(..) alternatives viewed `as Some`: only the Some alternatives can be meant
-            somes = [x for x in src[1] if not (x[0] == 'agg' and str(x[1]).endswith('Option::None'))]
+            def is_none(x):
+                # the literal None, or what `x?` builds on the failure branch of an Option
+                return (x[0] == 'agg' and str(x[1]).endswith('Option::None')) or \
+                    (x[0] == 'call' and x[1].endswith('FromResidual>::from_residual') and 'option::Option' in x[1])
+            somes = [x for x in src[1] if not is_none(x)]
             if len(somes) == 1 and somes[0][0] == 'agg' and str(somes[0][1]).endswith('Option::Some') and somes[0][2]:
                 return somes[0][2][0]
             if len(somes) == 1 and len(src[1]) > 1 and somes[0][0] == 'call':
